@@ -305,6 +305,18 @@ def r05_2(ctx, counts) -> RuleResult:
                                   edge_ok=feasible_edges(cfg, holder[0], facts))
             res.instances.append(f'{f.key}: write to {name}.variables at L{w.lineno} '
                                  f'copy-dominated={ok}')
+            if not ok and f.parent is not None and name.split('.')[0] not in f.params():
+                # a nested function writing through a context captured from the enclosing
+                # function: the copy must dominate the nested definition there
+                outer = f.parent
+                ocfg = CFG(outer.node, calls_may_raise)
+                dn = [c for c in ocfg.nodes if c.ast is f.node]
+                if dn:
+                    ofacts = branch_facts(ocfg)
+                    ok = ocfg.dominated_by(dn[0], is_copy,
+                                           edge_ok=feasible_edges(ocfg, dn[0], ofacts))
+                    if ok:
+                        res.instances[-1] += f' [copy in the enclosing {outer.name}]'
             if ok:
                 res.ok()
             elif own:
